@@ -23,17 +23,26 @@ def load_known():
         return []
     return json.load(open(p)).get("findings", [])
 
-def discover(prop):
+def registered():
+    p = os.path.join(VERIF, "specs", "registered.json")
+    return json.load(open(p)) if os.path.exists(p) else {"verus": [], "kani": []}
+
+def discover(prop, all_units=False):
     vunits, kunits = [], []
+    reg = registered()
     for p in sorted(glob.glob(os.path.join(VERIF, "specs", "verus", "*.vspec"))):
         head = open(p, encoding="utf-8").read(4000)
         m = re.search(r"^//@serves (.*)$", head, re.M)
+        if not all_units and os.path.splitext(os.path.basename(p))[0] not in reg["verus"]:
+            continue
         if m and prop in m.group(1).split():
             mt = re.search(r"^//@tier (\w+)$", head, re.M)
             vunits.append((p, mt.group(1) if mt else "quick"))
     for p in sorted(glob.glob(os.path.join(VERIF, "specs", "kani", "*.kspec"))):
         head = open(p, encoding="utf-8").read(4000)
         m = re.search(r"^//@serves (.*)$", head, re.M)
+        if not all_units and os.path.splitext(os.path.basename(p))[0] not in reg["kani"]:
+            continue
         if m and prop in m.group(1).split():
             kunits.append(p)
     return vunits, kunits
@@ -44,6 +53,7 @@ def main():
     ap.add_argument("--tier", default=os.environ.get("VERIF_TIER", "quick"))
     ap.add_argument("--unit", action="append", help="restrict to these units (development)")
     ap.add_argument("--no-evidence", action="store_true")
+    ap.add_argument("--all-units", action="store_true", help="also run units not yet listed in specs/registered.json (development)")
     a = ap.parse_args()
     prop = a.prop
     tier = a.tier if a.tier in ("quick", "thorough") else "quick"
@@ -51,7 +61,7 @@ def main():
     t0 = time.time()
     meta = load_meta().get(prop, {})
     known = [k for k in load_known() if k.get("property") == prop]
-    vunits, kunits = discover(prop)
+    vunits, kunits = discover(prop, a.all_units)
     if a.unit:
         vunits = [(p, t) for p, t in vunits if os.path.splitext(os.path.basename(p))[0] in a.unit]
         kunits = [p for p in kunits if os.path.splitext(os.path.basename(p))[0] in a.unit]
